@@ -124,7 +124,8 @@ def bounded_cases(ctx: Ctx):
                 continue
             if func in ("any", "all") and dt != "bool":
                 continue
-            for rq in [None, "float32", "float64", "int64"][: (4 if not ctx.quick else 2)]:
+            # quick: dtype= None / float32, and int64 for the mean family (an integer dtype= of a floating statistic truncates like NumPy)
+            for rq in [None, "float32", "float64", "int64"] if (not ctx.quick or func in ("mean", "nanmean")) else [None, "float32"]:
                 if rq is not None and (dt.startswith(("datetime", "timedelta")) or func in ("any", "all", "count") or "arg" in func or dt == "bool"):
                     continue
                 for fv in [None, 0, "nan"]:
